@@ -74,6 +74,10 @@ func ruleLeafDescriptors(c *Ctx) {
 			continue
 		}
 		if !ok {
+			if p.codecUnreachable(ct) {
+				c.Note("T.desc-leaf: %s is not in the descriptor table and not used by the module - skipped", ct.Name)
+				continue
+			}
 			c.Oblige("T.desc-leaf", false, pos, ct.Name, "unclassified codec", "new codec type without an entry in the descriptor table: needs classification", nil)
 			continue
 		}
